@@ -15,7 +15,7 @@ import itertools
 import os
 from types import SimpleNamespace
 
-from lib import core
+from lib import core, sysrun
 from lib.coqgen import coq_str, coq_list
 
 ID = 'C06'
@@ -24,7 +24,7 @@ EXTRACT = 'Extract/C06Extract.v'
 DRIVER = 'ocaml/C06_driver.ml'
 ASSUMPTIONS = [
     'build statuses are drawn from the five documented values; any other string is a KeyError in code and model',
-    'system-level clause (statuses are read on the tips that get queued/merged) is covered by the C03/C01 system harness, not here',
+    'system-level clause (statuses are read on the tips that get queued/merged): monitored on seeded system histories (mock host + real git), not proved',
 ]
 TRUSTED = ['modelled by hand: control flow of check_build_status and bypass_build_status (Model/BuildGate.v); '
            'data (ranking, raise chain, exception kinds) generated from /repo']
@@ -208,6 +208,7 @@ def core_hex(s):
 
 
 def run(ctx, cases=None):
+    cases_given = cases is not None
     cases = list(domain(ctx)) if cases is None else cases
     ctx.rule = ('exhaustive product of status vectors of length 1..%d over the 5 statuses x bypass source '
                 '{none, comment, per-author, command line} x build key {empty, pre-merge}, plus a malformed '
@@ -236,8 +237,19 @@ def run(ctx, cases=None):
                 ctx.violation(inp, s_verdict, got, 'build gate verdict differs from the specification')
         if ctx.evaluations % 997 == 1:
             ctx.sample({'input': inp, 'impl': i_out, 'model': m_out, 'spec': s_verdict})
+    if cases_given:
+        return
+    # system-level clause: on real repositories the tips change between build report and evaluation
+    n = 32 if ctx.quick else 400
+    ctx.rule += ('; plus %d seeded system histories (random-walk and life-cycle families, build reports on current '
+                 'and superseded tips, all five statuses): every evaluation that ends Queued / SuccessMessage is '
+                 'checked against the build table of the integration tips it started from' % n)
+    sysrun.run(ctx, [ctx.seed * 100000 + 500 + i for i in range(n)], 16, ['mon_c06'], do_corr=False)
 
 
 def replay(ctx, data):
     inp = data['input']
+    if 'history' in inp:
+        sysrun.run(ctx, [0], 0, ['mon_c06'], do_corr=False, replay_history=inp['history'])
+        return
     run(ctx, [(inp['statuses'], inp['bypass'], inp['build_key'])])
